@@ -1,0 +1,27 @@
+//go:build !verif
+
+package server
+
+// Without the `verif` build tag the verification hooks are no-ops.
+
+import (
+	"net"
+
+	"golang.org/x/net/ipv4"
+	"golang.org/x/net/ipv6"
+
+	"github.com/insomniacslk/dhcp/dhcpv4"
+	"github.com/insomniacslk/dhcp/dhcpv6"
+)
+
+func verifSend4(*listener4, *dhcpv4.DHCPv4, *dhcpv4.DHCPv4, *net.UDPAddr, *ipv4.ControlMessage, bool) bool {
+	return false
+}
+
+func verifSend6(*listener6, dhcpv6.DHCPv6, dhcpv6.DHCPv6, *net.UDPAddr, *ipv6.ControlMessage) bool {
+	return false
+}
+
+func verifFrame(net.Interface, []byte) bool { return false }
+
+func verifBufPut([]byte) {}
